@@ -19,6 +19,11 @@ from .. import strategies as S
 
 PROPERTY = "C03"
 LEVEL = "exploration"
+MANIFEST = {
+    "level_text": "Randomised search (Hypothesis, boundary-aware generators, ~40k cases quick / 1.5M thorough) over constructors, all operator x variant x operand-type combinations and the views, against an exact-rational oracle. Finds violations; does not prove absence.",
+    "level_note": "Trusts fractions.Fraction / decimal arithmetic and a 60-digit rational pi. Tolerances as stated in the property.",
+    "technique": "property-based testing (Hypothesis) with exact-rational reference model",
+}
 RULE = ("Hypothesis-generated cases, three clauses. ctor: one scalar (int or float up to "
         "1e15: uniform, k*360/180/90 +- {0, 1 ulp, 1e-12..1e-3}, +-0.0, denormals, "
         "+-(360 -+ ulp)) given as degrees, radians or RA hours, as scalar, 1-list or copy; or "
